@@ -508,7 +508,7 @@ def legacy1(ctx: Ctx, chk) -> None:
         hooks = [f for fl in s.mro_methods().values() for f in fl if any(d.split("(")[0].split(".")[-1] == "pre_load" for d in f.decorator_names)]
         if len(hooks) != 1:
             raise AnalysisError(f"LEGACY-1: expected one pre_load hook on {s.name}")
-        f = ctx.inl(hooks[0])
+        f = ctx.inl(hooks[0], lambda h: h.cls is None or h.name.startswith("_"))  # conversion helpers of any name: module functions, private methods
         n = 0
         bad = None
         for inp in dx.input_partition(keys, extra):
